@@ -587,10 +587,11 @@ theorem akeys_entriesM (cfg : Cfg) (O : Oracles) (r : String → V) (re : String
 
 section tree
 variable (cfg : Cfg) (O : Oracles)
-  (hleak : cfg.leaksImportant = false) (hbound : cfg.addlItemsBound = false)
+  (hbound : cfg.addlItemsBound = false)
   (hO : cfg.floatTolerance = true → OExact O)
   (rI : String → V) (rS : String → JVal → Bool) (known : String → Bool)
   (hr : ∀ name, known name = true → VAgree (AdmP cfg) (rI name) (rS name))
+  (hleak : cfg.leaksImportant = true → ∀ name, NoImp.LV (rI name))
   (reE : String → E) (raA : String → A)
   (hre : ∀ name, known name = true → FSim (AdmP cfg) (reE name) (raA name))
 
@@ -603,7 +604,7 @@ theorem okL_eq (ss : List Schema) (hs : wfL cfg known ss = true) (v : JVal) (hv 
   | cons s ss ih =>
     rw [wfL_cons] at hs
     simp only [Bool.and_eq_true] at hs
-    have h := (validate_agree cfg O hleak hbound hO rI rS known hr s hs.1 "" v hv).2
+    have h := (validate_agree cfg O hbound hO rI rS known hr hleak s hs.1 "" v hv).2
     simp only [okL, validOkL, ih hs.2]
     congr 1
 
@@ -630,8 +631,8 @@ theorem entries_sim (s : Schema) (hs : wf cfg known s = true) :
         Bool.and_eq_true] at hs'
       obtain ⟨⟨⟨⟨⟨⟨⟨⟨⟨⟨⟨hn, h1⟩, h2⟩, h3⟩, h4⟩, h5⟩, h6⟩, h7⟩, h8⟩, h9⟩, h10⟩, _⟩ := hs'
       simp only [href, bne_self_eq_false, Bool.false_eq_true, ↓reduceIte]
-      rw [okL_eq cfg O hleak hbound hO rI rS known hr anyOf h9 v hv,
-          okL_eq cfg O hleak hbound hO rI rS known hr oneOf h10 v hv]
+      rw [okL_eq cfg O hbound hO rI rS known hr hleak anyOf h9 v hv,
+          okL_eq cfg O hbound hO rI rS known hr hleak oneOf h10 v hv]
       unfold nodeWf at hn
       simp only [Bool.and_eq_true, decide_eq_true_eq] at hn
       obtain ⟨⟨_, n6⟩, n7⟩ := hn
@@ -702,7 +703,7 @@ end tree
 
 /-- `$ref` by fuel: the recorded entries and the applicable schemas, as sets, for every amount of fuel -/
 theorem entriesF_sim (cfg : Cfg) (O : Oracles)
-    (hleak : cfg.leaksImportant = false) (hbound : cfg.addlItemsBound = false)
+    (hbound : cfg.addlItemsBound = false)
     (hO : cfg.floatTolerance = true → OExact O)
     (defs : String → Option Schema) (hdefs : DefsWf cfg defs) (n : Nat) :
     ∀ s, wf cfg (fun n => (defs n).isSome) s = true →
@@ -710,15 +711,19 @@ theorem entriesF_sim (cfg : Cfg) (O : Oracles)
   induction n with
   | zero =>
     intro s hs
-    exact entries_sim cfg O hleak hbound hO _ _ (fun n => (defs n).isSome)
-      (fun _ _ _ _ _ => ⟨rfl, rfl⟩) _ _ (fun _ _ _ _ _ => Sim.refl _) s hs
+    exact entries_sim cfg O hbound hO _ _ (fun n => (defs n).isSome)
+      (fun _ _ _ _ _ => ⟨rfl, rfl⟩) (fun _ _ p _ _ => NoImp.loc_sErr p eFuel rfl) _ _ (fun _ _ _ _ _ => Sim.refl _) s hs
   | succ n ih =>
     intro s hs
-    apply entries_sim cfg O hleak hbound hO _ _ (fun n => (defs n).isSome) ?_ _ _ ?_ s hs
+    apply entries_sim cfg O hbound hO _ _ (fun n => (defs n).isSome) ?_ ?_ _ _ ?_ s hs
     · intro name hk p x hx
       cases hd : defs name with
       | none => simp [hd] at hk
-      | some t => simpa [hd] using validateF_agree cfg O hleak hbound hO defs hdefs n t (hdefs name t hd) p x hx
+      | some t => simpa [hd] using validateF_agree cfg O hbound hO defs hdefs n t (hdefs name t hd) p x hx
+    · intro _ name p x hx
+      cases hd : defs name with
+      | none => simp only []; exact ⟨(by intro m hm; cases hm), (by intro m hm; cases hm)⟩
+      | some t => simp only []; exact NoImp.validateF_loc cfg O defs n t p x hx
     · intro name hk p x hx
       cases hd : defs name with
       | none => simp [hd] at hk
